@@ -213,9 +213,16 @@ func c01One(run *ev.Run, p c01P) {
 		body       []byte
 	}
 	var sent []exp
+	busyOnce := false
 	handler := func(e *refbmc.Event) (byte, []byte, bool) {
 		if e.Kind != "session-ipmi" {
 			return 0, nil, false
+		}
+		if busyOnce {
+			// the BMC is momentarily busy: the library asks again, and that request must be
+			// accepted as well (fresh sequence number, valid AuthCode)
+			busyOnce = false
+			return 0xc0, nil, true
 		}
 		body := rbytes(r, 1+r.Intn(40))
 		sent = append(sent, exp{e.NetFn, e.Cmd, body})
@@ -336,6 +343,10 @@ func c01One(run *ev.Run, p c01P) {
 	for i := 0; i < p.Cmds; i++ {
 		cmd := &RawCmd{Op: ipmi.Operation{Function: ipmi.NetworkFunctionAppReq, Command: ipmi.CommandNumber(0x40 + i)}, Req: rbytes(r, r.Intn(30))}
 		damaged := 0
+		if env != nil && i%3 == 2 {
+			busyOnce = true
+			run.Event("node-busy-replies", 1)
+		}
 		if env != nil && i%3 == 1 && !noneSuite {
 			// the network damages one bit of this command's first reply (in the AuthCode, the
 			// payload or the header): the library discards it and asks again, and that
